@@ -194,6 +194,12 @@ def _big_stack():
     # the extracted model recurses over lists non-tail-recursively
     import resource
     try:
+        # a defect in the code under test must not let one driver process eat the machine
+        # (seen: a wrong cached end turned a 40-frame range into 2^60 frames, 53 GB)
+        resource.setrlimit(resource.RLIMIT_DATA, (8 << 30, 8 << 30))
+    except Exception:
+        pass
+    try:
         resource.setrlimit(resource.RLIMIT_STACK, (resource.RLIM_INFINITY, resource.RLIM_INFINITY))
     except Exception:
         try:
